@@ -264,6 +264,8 @@ func RunC20(c *Ctx) {
 		{"big-array", []byte(zerosArr(60000))},
 		{"nested-big-object", []byte(`{"x":[` + keysObj(30000, "") + `]}`)},
 		{"nested-big-array", []byte(`[{"x":` + zerosArr(60000) + `}]`)},
+		{"array-holding-one-big-object", []byte("[" + keysObj(20000, "") + "]")},
+		{"object-whose-last-member-is-big", []byte(`{"a":1,"z":` + keysObj(20000, "") + "}")},
 		{"big-object-of-objects", []byte("[" + strings.Repeat(keysObj(40, "k")+",", 800) + "{}]")},
 		{"deep", []byte(strings.Repeat(`[{"a":`, 4500) + "0" + strings.Repeat("}]", 4500))},
 		{"big-escaped-strings", []byte("[" + strings.Repeat(`"`+strings.Repeat(`\n`, 500)+`",`, 100) + `""]`)},
@@ -281,6 +283,7 @@ func RunC20(c *Ctx) {
 		{"wrong-kind", []byte(`"just a string"`)},
 		{"small-escaped", []byte(`{"\n":"\t","k":["\""]}`)},
 	}
+	rot := 0
 	readers := []struct {
 		name string
 		run  func(vr *rjson.ValueReader, buf *rjson.Buffer, d []byte)
@@ -288,6 +291,37 @@ func RunC20(c *Ctx) {
 		{"ValueReader.ReadValue", func(vr *rjson.ValueReader, buf *rjson.Buffer, d []byte) { vr.ReadValue(d) }},
 		{"ValueReader.ReadObject", func(vr *rjson.ValueReader, buf *rjson.Buffer, d []byte) { vr.ReadObject(d) }},
 		{"ValueReader.ReadArray", func(vr *rjson.ValueReader, buf *rjson.Buffer, d []byte) { vr.ReadArray(d) }},
+		// mixed entry points on one reader: the large document through one method, the small ones
+		// through another (seeded change C20r2-m1 leaked a size hint only across entry points)
+		{"ValueReader: large via ReadArray/ReadObject, small via ReadValue", func(vr *rjson.ValueReader, buf *rjson.Buffer, d []byte) {
+			if len(d) < 1000 {
+				vr.ReadValue(d)
+			} else if d[0] == '{' {
+				vr.ReadObject(d)
+			} else {
+				vr.ReadArray(d)
+			}
+		}},
+		{"ValueReader: large via ReadValue, small via ReadObject/ReadArray", func(vr *rjson.ValueReader, buf *rjson.Buffer, d []byte) {
+			if len(d) >= 1000 {
+				vr.ReadValue(d)
+			} else if d[0] == '{' {
+				vr.ReadObject(d)
+			} else {
+				vr.ReadArray(d)
+			}
+		}},
+		{"ValueReader: methods rotated on every call", func(vr *rjson.ValueReader, buf *rjson.Buffer, d []byte) {
+			rot++
+			switch rot % 3 {
+			case 0:
+				vr.ReadValue(d)
+			case 1:
+				vr.ReadObject(d)
+			default:
+				vr.ReadArray(d)
+			}
+		}},
 		{"Valid(reused buffer)", func(vr *rjson.ValueReader, buf *rjson.Buffer, d []byte) { rjson.Valid(d, buf) }},
 		{"SkipValueFast(reused buffer)", func(vr *rjson.ValueReader, buf *rjson.Buffer, d []byte) { rjson.SkipValueFast(d, buf) }},
 		{"Handle*Values(re-entrant handler, reused buffer)", func(vr *rjson.ValueReader, buf *rjson.Buffer, d []byte) {
